@@ -161,18 +161,20 @@ def register(reg):
                      "implies(n >= 2 and u >= 1, WADV(n, u, t) == n_advance(n, u, t) + "
                      "WADV(n - n_advance(n, u, t), u - 1, t) + WADV(n_advance(n, u, t), u, t))", closed=False)
     S_ = "(self._snapshots_in_ram + self._snapshots_on_disk)"
-    K_ = "len(snapshots)"
+    # (stated over the ghost stack g.cs, which the ghost pushes together with g.P: the potential then
+    # does not depend on the coupling with the code's own `snapshots` list)
+    K_ = "len(g.cs)"
     T_ = "self._trajectory"
     TOT = "WADV(self._max_n, %s, %s)" % (S_, T_)
-    TOP = "snapshots[%s - 1]" % K_
+    TOP = "g.cs[%s - 1]" % K_
     POT_COUPLING = [
         # (the relation for the top entry is stated on its own: after a push the quantified part then
         # only concerns entries the push did not touch)
         ("potential_stack", "len(g.P) == %s and implies(%s >= 1, g.P[0] == 0) and "
                             "forall(1, %s - 1, lambda i: g.P[i] == g.P[i - 1] + "
-                            "WADV(snapshots[i] - snapshots[i - 1], %s - i + 1, %s)) and "
+                            "WADV(g.cs[i] - g.cs[i - 1], %s - i + 1, %s)) and "
                             "implies(%s >= 2, g.P[%s - 1] == g.P[%s - 2] + "
-                            "WADV(snapshots[%s - 1] - snapshots[%s - 2], %s - %s + 2, %s))"
+                            "WADV(g.cs[%s - 1] - g.cs[%s - 2], %s - %s + 2, %s))"
          % (K_, K_, K_, S_, T_, K_, K_, K_, K_, K_, S_, K_, T_))]
 
     # F14 ---------------------------------------------------------------- _iterator
